@@ -31,7 +31,7 @@ import atomman.lammps as lmp
 import pandas as pd
 
 ULP = 0
-LOGNAMES = ['log.lammps', 'log.lammps', 'log.lammps', 'md.log', 'sim.out.txt', 'logfile', 'relax-2.lammps']
+LOGNAMES = ['log.lammps', 'log.lammps', 'log.lammps', 'md.log', 'sim.out.txt', 'logfile', 'relax-2.lammps', 'sim/log.lammps']
 MAX_LOGS = 4
 # what a caller may hand to Log / Log.read: the five kinds of sim/streams.py plus a pathlib.Path, a bytes object,
 # an open binary file and an open unbuffered (raw) binary file
@@ -112,9 +112,9 @@ class CosimEngine(Engine):
                        'flatten_indices', 'whitespace_only_echo_line', 'perf_new', 'perf_old', 'perf_none',
                        'block_without_rows', 'screen_output_read', 'logfile_read_by_run',
                        'mixed_column_sets', 'nonfinite_tokens', 'int_beyond_32bit', 'two_versions_in_one_log_object',
-                       'step_not_first_column', 'restart_ends_below_previous', 'recovery_after_crash_in_one_call', 'clean_run_covers_whole_history']
+                       'step_not_first_column', 'restart_ends_below_previous', 'logfile_in_subdirectory_rotated', 'recovery_after_crash_in_one_call', 'clean_run_covers_whole_history']
     rule = ('Each run is a history of up to 16 operations in one fresh scratch directory. invoke: atomman.lammps.run() with the '
-            'stub LAMMPS behind it (script or script file, restart script or not, one of six log-file names or no log file, '
+            'stub LAMMPS behind it (script or script file, restart script or not, one of six log-file names, a log file in a sub-directory, or no log file, '
             'screen on/off, mpi prefix, suffix); the stub prints a log from the documented layout (16 version banners, either '
             'memory banner, 0-4 run/minimize blocks, Step plus 0-11 keywords from a 68-keyword vocabulary or generated compute/fix/variable IDs over [A-Za-z0-9_] with optional indices, Step anywhere, '
             'six row formats, 0-60 rows, integers beyond 2^31, non-finite tokens, echoed script lines including empty and '
@@ -166,6 +166,13 @@ class CosimEngine(Engine):
         st = {'cfg': cfg, 'cwd0': os.getcwd(), 'scratch': tempfile.mkdtemp(prefix='atomman-verif-c19.'), 'files': {},
               'logs': [], 'models': [], 'nsynth': 0, 'invocations': 0, 'crashed': False, 'cols': None, 'kinds_used': set()}
         os.chdir(st['scratch'])
+        # a log file in a sub-directory: where run() keeps the rotated logs is its own business, so for this mode the model
+        # is neutral about names and places - the returned Log must cover the whole history in order, and every
+        # invocation's surviving bytes must still exist, once, somewhere under the run directory
+        st['subdir'] = '/' in cfg['logfile']
+        st['series'] = []
+        if st['subdir']:
+            os.makedirs(os.path.dirname(cfg['logfile']), exist_ok=True)
         st['mod'] = sys.modules['atomman.lammps.run']
         st['real_subprocess'] = st['mod'].subprocess
         st['stub'] = FakeSubprocess()
@@ -305,6 +312,8 @@ class CosimEngine(Engine):
         if kind == 'invoke':
             name = cfg['logfile']
             restart = r.random() < (0.85 if st['invocations'] else 0.5)
+            if st['subdir']:
+                restart = True              # one restart chain (see init)
             if r.random() < 0.06 and not restart:
                 name = None
             screen = cfg['screen'] if r.random() < 0.8 else (not cfg['screen'])
@@ -576,6 +585,21 @@ class CosimEngine(Engine):
         finally:
             model.torn_banner = saved
 
+    def _check_conserved(self, ctx, st, where):
+        have = []
+        for root, dirs, fnames in os.walk('.'):
+            for fn in fnames:
+                if fn.startswith('in.') or fn.startswith('ext-'):
+                    continue
+                with open(os.path.join(root, fn), 'rb') as f:
+                    have.append(f.read())
+        want = sorted(st['series'])
+        if sorted(have) != want:
+            raise Violation('C19.I7', {'what': 'the surviving logs of the earlier invocations are no longer all there (each exactly once)',
+                                       'expected_files': len(want), 'observed_files': len(have),
+                                       'expected_sizes': sorted(len(x) for x in want), 'observed_sizes': sorted(len(x) for x in have),
+                                       'where': where}, klass='dir/conservation')
+
     def _check_dir(self, ctx, st, where):
         have = sorted(f for f in os.listdir('.') if not f.startswith('in.') and not f.startswith('ext-'))
         want = sorted(st['files'])
@@ -613,7 +637,17 @@ class CosimEngine(Engine):
         files = st['files']
         lognum = 0
         stem = ext = None
-        if op['restart'] and name in files:
+        subdir = name is not None and '/' in name
+        if subdir and not op['restart']:
+            return
+        if subdir:
+            os.makedirs(os.path.dirname(name), exist_ok=True)
+            series_prev = list(st['series'])
+            st['series'].append(surv)
+            if series_prev:
+                ctx.probe('restart_rotation')
+                ctx.probe('logfile_in_subdirectory_rotated')
+        elif op['restart'] and name in files:
             stem, ext = _split_name(name)
             pat = re.compile(re.escape(stem) + r'-(\d+)' + re.escape(ext) + r'$')
             ids = [int(m.group(1)) for m in (pat.match(f) for f in files) if m]
@@ -624,7 +658,7 @@ class CosimEngine(Engine):
                 ctx.probe('rotation_depth_ge_2')
             if lognum >= 3:
                 ctx.probe('rotation_depth_ge_3')
-        if name is not None:
+        if name is not None and not subdir:
             files[name] = surv
         # the call
         kw = {}
@@ -657,7 +691,10 @@ class CosimEngine(Engine):
         ctx.ev('op', 'invoke', {'logfile': name, 'restart': op['restart'], 'screen': op['screen'], 'rc': rc,
                                 'surviving': len(surv), 'lognum': lognum},
                'log' if ok else type(out).__name__)
-        self._check_dir(ctx, st, 'after invoke')
+        if subdir:
+            self._check_conserved(ctx, st, 'after invoke')
+        else:
+            self._check_dir(ctx, st, 'after invoke')
         kclass = place or 'clean'
         if rc != 0:
             st['crashed'] = True
@@ -668,14 +705,18 @@ class CosimEngine(Engine):
                                                'earlier invocations', 'exception': type(out).__name__, 'message': str(out)[:300],
                                        'old_logs': lognum}, site=sut_site(out), klass='run/raise/' + type(out).__name__)
         model = LogModel()
-        for i in range(1, lognum + 1):
+        if subdir:
+            lognum = len(series_prev)
+            for i, h in enumerate(series_prev):
+                self._model_add(ctx, model, h.decode('utf-8'), 'invocation-%d' % i)
+        for i in range(1, (0 if subdir else lognum) + 1):
             fn = '%s-%d%s' % (stem, i, ext)
             self._model_add(ctx, model, files[fn].decode('utf-8'), fn)
         if op['screen']:
             self._model_add(ctx, model, screen, 'screen')
             ctx.probe('screen_output_read')
         else:
-            self._model_add(ctx, model, files[name].decode('utf-8'), name)
+            self._model_add(ctx, model, surv.decode('utf-8'), name)
             ctx.probe('logfile_read_by_run')
         self._check_log(ctx, out, model, 'run() result')
         if lognum >= 1:
